@@ -18,7 +18,7 @@ CLAIMS = {
             "contains the origin iff some listed pattern denotes it (Spec.denotes: same scheme; host byte-equal, or ending in `.`+base with at least one more byte in front for `*.`; port equal or arbitrary for `:*`); C01_order - the verdict "
             "depends only on the set of patterns; C01_invariant - sorted edges/schemes/ports and label = first byte of each child's suffix hold for every tree the code can build; C01_parsed - every pattern ParsePattern accepts is well-formed; "
             "C01_config / C01_allow_all / C01_request - for an accepted configuration the raw Origin value is treated as allowed iff `*` is listed or it parses and a listed pattern denotes it; C01_browser_parse / C01_browser - the request-side lexer reads every serialised origin with a domain host "
-            "(scheme, `://`, LDH labels, optional trailing dot, optional port 1-65535; up to the longest such string) exactly into its parts, so the decision on the header *string* is `some listed pattern denotes the origin it stands for`. The core is insert_spec: Insert adds exactly the coverage "
+            "(scheme, `://`, LDH labels, optional trailing dot, optional port 1-65535; up to the longest such string) exactly into its parts, so the decision on the header *string* is `some listed pattern denotes the origin it stands for`; C01_browser_parse_ipv4 / C01_browser_parse_ipv6 / C01_browser_ip - the same for dotted-quad and bracketed hosts (the request side does not look inside brackets, so no oracle is involved); C13_parse_sound (Props/C13.lean) - the converse: whatever string the lexer accepts is `scheme://host[:port]` of the origin it returns, so a string that is not a serialised origin is never treated like one. The core is insert_spec: Insert adds exactly the coverage "
             "of the new entry (descend, subsumption short-cut, new leaf, split into child'/grandchildren), including the Go code's peculiar duplicate test in node.add. Tie: tree suite (ParsePattern+Insert / Parse+Contains on pattern lists sharing "
             "non-boundary suffixes with probes derived from every pattern), lex suite (Parse), decision bits of the serve suite.",
             '6/C01', "C01_parsed/C01_config/C01_request assume that the IPv6 oracle never accepts a literal starting with `*` (true of netip.ParseAddr). Serialised origins with IP-literal hosts rest on the netip oracle (tie only); bracketed non-IP hosts are matched after bracket stripping (DESIGN 8.9)."),
